@@ -182,7 +182,7 @@ pub fn run(ctx: &Ctx) -> EvidenceMeta {
         .iter()
         .flat_map(|s| {
             let ops: Vec<Op> = s.iter().map(|i| alpha[*i].clone()).collect();
-            [History { tcp: false, ops: ops.clone(), remote: 0 }, History { tcp: true, ops, remote: 0 }]
+            [History { tcp: false, ops: ops.clone(), remote: 0, tick: 0 }, History { tcp: true, ops, remote: 0, tick: 0 }]
         })
         .collect();
     let n = items.len();
